@@ -282,6 +282,7 @@ def plan(tier, seed):
     items.append({"k": "empty"})
     for n in (255, 256, 257, 65535, 65536, 65537):
         items.append({"k": "manyids", "n": n})
+    items.append({"k": "tinydoses"})
     for c in c01.CONTROLS[:2]:
         for rows_per in ([1, 1, 1], [2, 1, 2], [1, 2, 1, 1]):
             items.append({"k": "merged", "control": c, "rows_per": rows_per})
@@ -310,6 +311,10 @@ def _flags(s):
         bool(((obs != 0) & (np.abs(obs) < 1e-300)).any() or (np.abs(obs) > 1e200).any() or np.signbit(obs[obs == 0]).any()),
         bool((~np.asarray(s.observation_mask, dtype=bool)).any()),
     )
+
+
+def small_family(family):
+    return family.split("|")[0] in ("obsmask", "empty", "merged", "tinydoses", "manyids")
 
 
 def round_trip(screen, cycles, col, case, family, tmp, verbose=False):
@@ -350,6 +355,25 @@ def round_trip(screen, cycles, col, case, family, tmp, verbose=False):
                 bad(f"C02|screen|{field}", f"after save/load {field} is {got[field]!r}, the saved screen had {want[field]!r}")
             if verbose:
                 print("loaded:", got)
+            # history: the loaded object is worked on in place (plates merged, a mapping name edited) and the SAME archive is
+            # loaded once more: the second load is judged like the first
+            if small_family(family):
+                scratch_obj = cur
+                try:
+                    for arr in (scratch_obj.plate_names, scratch_obj.sample_names, scratch_obj.sample_mapping[0], scratch_obj.treatment_mapping[0]):
+                        a_ = np.asarray(arr)
+                        if a_.size and a_.flags.writeable:
+                            a_[...] = "ed"
+                except Exception:  # noqa: BLE001
+                    pass
+                col.evaluations += 1
+                try:
+                    again = observe(Screen.load_h5(path))
+                    for field in _diff(got, again):
+                        bad(f"C02|second-load|{field}", f"the archive loaded a second time (after the first loaded object was edited in place) gives {field}={again[field]!r}, the first load gave {got[field]!r}")
+                except Exception as exc:  # noqa: BLE001
+                    bad("C02|load|raised", f"Screen.load_h5 raised on the second load of one archive: {short_exc(exc)}")
+                cur = Screen.load_h5(path)
         else:
             for field in _diff(first, got):
                 bad(f"C02|fixedpoint|{field}", f"cycle {k} changed {field}: {first[field]!r} -> {got[field]!r}")
@@ -414,6 +438,18 @@ def run_case(case, col, tmp, verbose=False):
             for mem in mems + extra:
                 c2 = dict(case, memory=mem)
                 round_trip(build(case["spec"], control, tm, sm, memory=mem), cycles, col, c2, case["family"] + "|layout-" + mem, tmp, verbose)
+        return
+    if kind == "tinydoses":
+        # doses in mol/L: several dose levels of one drug that differ only beyond the 6th decimal
+        doses = case["doses"]
+        n = len(doses)
+        s = Screen(
+            treatment_names=np.array([["a", "b"] if i % 2 else ["a", ""] for i in range(n)], dtype=str),
+            treatment_doses=np.array([[d, 1e-9 * (i + 1)] if i % 2 else [d, 0.0] for i, d in enumerate(doses)]),
+            sample_names=np.array([f"s{i % 2}" for i in range(n)], dtype=str), plate_names=np.array([f"p{i % 3}" for i in range(n)], dtype=str),
+            observations=np.array([0.1 * (i + 1) for i in range(n)]), control_treatment_name=control,
+        )
+        round_trip(s, cycles, col, case, "tinydoses", tmp, verbose)
         return
     if kind == "manyids":
         # sparse probe: exactly n distinct conditions and n distinct samples (id tables whose largest id sits on a byte / word
@@ -530,6 +566,11 @@ def _run_item(item, col, tier, tmp):
         return
     if k == "manyids":
         run_case({"kind": "manyids", "n": item["n"], "control": "", "cycles": 2}, col, tmp)
+        return
+    if k == "tinydoses":
+        for doses in ([2.5e-7, 5e-7, 1e-6, 1.0000001e-6], [1e-9, 2e-9, 1e-9, 3e-9, 4e-10], [1.0, 1.0000001, 1.0000002], [5e-324, 1e-300, 1e-7, 4.9e-7]):
+            for control in ("", "ctl"):
+                run_case({"kind": "tinydoses", "doses": doses, "control": control, "cycles": 3}, col, tmp)
         return
     if k == "merged":
         # screens whose plates were merged in place (Plate.merge rewrites plate names and ids of the live screen), then saved
